@@ -81,7 +81,7 @@ impl Property for C18 {
         "exploration"
     }
     fn rule(&self) -> &'static str {
-        "A scenario = a valid configuration from the swarm grammar (verified: the same world runs Ok) plus exactly one corruption that is invalid by construction: final ')' of a call dropped, unmatched '(' added, unknown function name, arity min-1 / max+1 from the scraped function table, trailing garbage after a complete expression (also one stray character glued to a call), an expression cut to length zero, a literal or /name/ reference that lost its closing character, sort direction other than ASC/DESC, --set without '=', with an empty name, duplicated, or duplicated with a same-named definition of the other kind in between, JSON-only options with csv/text, text-only options with json/csv, csv without --select, csv or --headers with --group-by/--merge; in every option position and output style. World: a non-empty input waiting on stdin or, in a third of the scenarios, in two file arguments behind the opener seam (hook H2); in half of the scenarios hostile stubs (every read and write fails, opening the second file fails). Oracle: go returns Err and the recorded seam history of the run is empty (stdin factory not called, no file opened, no read, no write on either sink). evaluations = jawk executions; non-trivial = the corrupted configuration was executed (all scenarios that pass the validity pre-check); distinct = distinct (corruption kind, option position, output style, hostile?) combinations hashed into the abstract trace."
+        "A scenario = a valid configuration from the swarm grammar (verified: the same world runs Ok) plus exactly one corruption that is invalid by construction: final ')' of a call dropped, unmatched '(' added, unknown function name, arity min-1 / max+1 from the scraped function table, trailing garbage after a complete expression (also one stray character glued to a call), an expression cut to length zero, a literal or /name/ reference that lost its closing character, sort direction other than ASC/DESC, --set without '=', with an empty name, duplicated, or duplicated with a same-named definition of the other kind in between, JSON-only options with csv/text, text-only options with json/csv, csv without --select, csv or --headers with --group-by/--merge; in every option position and output style. World: a non-empty input waiting on stdin or, in a third of the scenarios, in two file arguments behind the opener seam (hook H2); in half of the scenarios hostile stubs (every read and write fails, opening the second file fails). Oracle: go returns Err and the recorded seam history of the run is empty (stdin factory not called, no file opened, no read, no write on either sink). evaluations = jawk executions; non-trivial = the corrupted configuration was executed (all scenarios that pass the validity pre-check); distinct = distinct (corruption kind, option position, output style, hostile?) combinations hashed into the abstract trace. Round 7 kinds: duplicate --set re-spelled with blanks around the name, stray quote characters before/after a complete call or literal, a path running into an unterminated string, a direction glued to a selection, an index step beyond 2^64."
     }
     fn assumptions(&self) -> Vec<String> {
         vec![
